@@ -456,6 +456,17 @@ def show_genome(gen, G):
     return "; ".join(out)
 
 
+STREAM_KINDS = ["list", "dump", "inline", "tree", "graphviz"]
+STREAM_REF = " ".join("%s print" % k for k in STREAM_KINDS) + " long " + " ".join("%s print" % k for k in STREAM_KINDS)
+STREAM_TOKENS = ["c", "cpp", "mql", "py"] * 3 + STREAM_KINDS + ["long", "short", "print", "print", "print", "fresh"] + \
+                ["pf%d" % i for i in range(9)]
+
+
+def stream_ops(rng):
+    ops = [rng.choice(STREAM_TOKENS) for _ in range(rng.between(2, 14))]
+    return ops + ["print"]
+
+
 def term_kind_of(t):
     """the terminal kind (as in Gen.term_kinds) of a terminal node"""
     k = t[1]
@@ -903,6 +914,14 @@ def run(chk, replay=None):
         table_ok = True
     except Refuse as e:
         broken.append("translator tools/translate_templates.py refuses the current sources: %s" % e)
+    export = None
+    try:
+        export, changed2 = translate_templates.emit_export(os.path.join(C.LEAN, "Vita", "C19", "GenExport.lean"))
+        chk.cov["translated_manipulators"] = len(export["manipulators"])
+        chk.cov["gen_export_changed_vs_committed"] = bool(changed2)
+    except Refuse as e:
+        broken.append("translator tools/translate_templates.py refuses the print-format machinery "
+                      "(individual.cc / i_mep.cc / team.tcc): %s" % e)
 
     drv_ok = False
     if table_ok:
@@ -971,13 +990,20 @@ def run(chk, replay=None):
             if fn.endswith(".json"):
                 for item in json.load(open(os.path.join(cdir, fn))):
                     corpus.append(tuple_tree(item["tree"]))
+    forced_team, forced_stream = 0, None
     if replay:
         r = json.load(open(replay))
         rp = r.get("replay", {})
-        if "tree" in rp:
+        if "team_members" in rp:
+            corpus = []
+            for m in rp["team_members"]:
+                add(tuple_tree(m["tree"]), "corpus", (Genome.from_json(m["genome"]), m.get("layout", "?"), m.get("share", "?")))
+            forced_team = len(rp["team_members"])
+        elif "tree" in rp:
             corpus = []
             add(tuple_tree(rp["tree"]), "corpus",
                 (Genome.from_json(rp["genome"]), rp.get("layout", "?"), rp.get("share", "?")) if "genome" in rp else None)
+            forced_stream = rp.get("stream_ops")
     for t in corpus:
         add(t, "corpus")
     for fn in (sorted(os.listdir(cdir)) if os.path.isdir(cdir) and not replay else []):
@@ -1106,11 +1132,43 @@ def run(chk, replay=None):
     # ---- run vita -----------------------------------------------------------------------------
     nin = 3 if quick else 6
     lines, inputs_of = [], {}
+    what_line = []          # ("prog", pid) | ("team", [pids]) | ("streamref", pid) | ("stream", pid, ops)
+    p_extra = 0.0 if replay else (0.03 if quick else 0.02)
     for pid, (t, origin) in enumerate(programs):
         ins = input_vectors(rng, nin)
         inputs_of[pid] = ins
         lines.append(harness_line(syms, genomes[pid][0], ins))
-    cpp, deaths = C.run_lines(exe, lines)
+        what_line.append(("prog", pid))
+        if (rng.chance(p_extra) and pid >= 1) or (forced_team and pid == len(programs) - 1):
+            k = forced_team or rng.between(1, min(pid + 1, 6))
+            lines.append("team %d" % k)
+            what_line.append(("team", list(range(pid - k + 1, pid + 1))))
+        if rng.chance(p_extra) or forced_stream:
+            lines.append("stream " + STREAM_REF)
+            what_line.append(("streamref", pid))
+            for _ in range(1 if forced_stream else 3):
+                ops = forced_stream or stream_ops(rng)
+                lines.append("stream " + " ".join(ops))
+                what_line.append(("stream", pid, ops))
+    allans, deaths0 = C.run_lines(exe, lines)
+    cpp = [None] * len(programs)
+    extra_ans = []
+    prog_line = {}
+    line_of_pid = {}
+    for i, (wl, ans) in enumerate(zip(what_line, allans)):
+        if wl[0] == "prog":
+            cpp[wl[1]] = ans
+            line_of_pid[wl[1]] = i
+        else:
+            extra_ans.append((i, wl, ans))
+    for i, wl in enumerate(what_line):
+        if wl[0] == "prog":
+            prog_line[i] = wl[1]
+    deaths = [(prog_line[idx], rc_, se_) for idx, rc_, se_ in deaths0 if idx in prog_line]
+    for idx, rc_, se_ in deaths0:
+        if idx not in prog_line:
+            broken.append("harness died (rc=%d) on `%s`: %s" % (rc_, lines[idx][:80], se_[-600:]))
+    dead_lines = sorted(idx for idx, _, _ in deaths0)
 
     def replay_of(pid, **extra):
         G, mode, share = genomes[pid]
@@ -1148,6 +1206,104 @@ def run(chk, replay=None):
         ans = C.run_driver("c19_driver", dl)
         for k, a in zip(keys, ans):
             verdict[k] = a
+
+    # ---- teams and stream histories (format selection) -------------------------------------------------
+    fails = []       # (size, what, replay, tags)
+    doc_kind = {"c": ("lang", 0), "cpp": ("lang", 1), "mql": ("lang", 2), "py": ("lang", 3)}
+    for k in STREAM_KINDS:
+        doc_kind[k] = ("fn", k)
+    enum_kind = {}
+    for name, v in (export["print_format_t"] if export else []):
+        nm = name[:-2] if name.endswith("_f") else name
+        if nm.endswith("_language") and nm[:-9] in ("c", "cpp", "mql", "python"):
+            enum_kind[v] = ("lang", ["c", "cpp", "mql", "python"].index(nm[:-9]))
+        elif nm.replace("_", "") in STREAM_KINDS:
+            enum_kind[v] = ("fn", nm.replace("_", ""))
+    refs, dreq, dkey = {}, [], []
+    for li, wl, ans in extra_ans:
+        if ans.startswith(("died", "skipped")):
+            continue
+        if wl[0] == "team":
+            pids = wl[1]
+            if any(pp not in texts for pp in pids) or any(line_of_pid[pids[0]] <= d <= li for d in dead_lines):
+                chk.count("team_exports_skipped_after_a_harness_restart")
+                continue
+            if ans == "bad-op":
+                broken.append("harness rejected `team %d`" % len(pids))
+                continue
+            got = [unhx(h).decode("latin1") for h in ans.split()]
+            chk.count("team_size:%d" % len(pids))
+            for f in range(4):
+                want = "".join(texts[pp][f] + "\n" for pp in pids)
+                chk.count("team_exports_checked")
+                if got[f] != want:
+                    big = sum(node_count(programs[pp][0]) for pp in pids)
+                    tags = {"kind": "team-text", "fmt": FMT[f], "origin": "team",
+                            "strings": "+".join(sorted({str_class(programs[pp][0]) for pp in pids}))}
+                    fails.append((big, "[%s/team-text] a team of %d members is not printed as its members' texts, each "
+                                  "followed by a newline\n  printed: %r\n  expected: %r" % (FMT[f], len(pids), got[f][:300], want[:300]),
+                                  {"team_members": [replay_of(pp) for pp in pids], "tree": list_tree(programs[pids[-1]][0]),
+                                   "format": FMT[f], "kind": "team-text", "printed": got[f]}, tags))
+                if drv_ok:
+                    dreq.append("team %d %s %d %s" % (f, hx(got[f]), len(pids), " ".join(hx(texts[pp][f]) for pp in pids)))
+                    dkey.append(("team", pids, f))
+        elif wl[0] == "streamref":
+            outs = [o.split(":") for o in ans.split()]
+            if wl[1] in texts and len(outs) == 10:
+                refs[wl[1]] = {(STREAM_KINDS[j % 5], j // 5): unhx(o[2]).decode("latin1") for j, o in enumerate(outs)}
+        elif wl[0] == "stream":
+            pid, ops = wl[1], wl[2]
+            if pid not in texts or pid not in refs or ans == "bad-op":
+                continue
+            outs = [] if ans == "-" else [o.split(":") for o in ans.split()]
+            cur, lf, exp = ("fn", "list"), 0, []
+            for op in ops:
+                if op == "print":
+                    exp.append((cur, lf))
+                elif op == "fresh":
+                    cur, lf = ("fn", "list"), 0
+                elif op in ("long", "short"):
+                    lf = 1 if op == "long" else 0
+                elif op.startswith("pf"):
+                    cur = enum_kind.get(int(op[2:]), ("fn", "?"))
+                else:
+                    cur = doc_kind[op]
+            chk.count("stream_histories_checked")
+            if len(exp) != len(outs):
+                broken.append("harness printed %d times for the history %s" % (len(outs), " ".join(ops)))
+                continue
+            for j, ((kind, l), (flag, lfs, hexs)) in enumerate(zip(exp, outs)):
+                text = unhx(hexs).decode("latin1")
+                want = texts[pid][kind[1]] if kind[0] == "lang" else refs[pid].get((kind[1], l))
+                chk.count("stream_prints_checked:" + (FMT[kind[1]] if kind[0] == "lang" else "other"))
+                if want is None or text != want or int(lfs) != l:
+                    f = kind[1] if kind[0] == "lang" else 0
+                    t = programs[pid][0]
+                    tags = {"kind": "format-selection", "fmt": FMT[f], "origin": programs[pid][1], "strings": str_class(t)}
+                    fails.append((node_count(t), "[format-selection] after the stream history `%s` print #%d must be the %s "
+                                  "rendering (long form %d)\n  program: %s\n  printed: %r\n  expected: %r" %
+                                  (" ".join(ops), j + 1, FMT[kind[1]] if kind[0] == "lang" else kind[1], l, show(t),
+                                   text[:300], (want or "")[:300]),
+                                  replay_of(pid, stream_ops=ops, kind="format-selection", printed=text), tags))
+                    break
+            if drv_ok:
+                dreq.append("stream " + " ".join(ops))
+                dkey.append(("stream", ops, [(o[0], o[1]) for o in outs], exp))
+    if dreq:
+        for key, a in zip(dkey, C.run_driver("c19_driver", dreq)):
+            if key[0] == "team":
+                if a != "team=1 lines=1" and not (a == "team=1 lines=0" and
+                                                  any("\n" in texts[pp][key[2]] for pp in key[1])):
+                    broken.append("Lean model of operator<<(team) disagrees with the code (%s) on a team of %d [%s]"
+                                  % (a, len(key[1]), FMT[key[2]]))
+            else:
+                want = " ".join("%s:%s:%s" % (fl, lfs, ("L%d" % k[1]) if k[0] == "lang" else
+                                             "F" + {"inline": "in_line"}.get(k[1], k[1]))
+                                for (fl, lfs), (k, l) in zip(key[2], key[3])) or "-"
+                if a != want:
+                    broken.append("Lean model of the stream state / operator<< switch disagrees with the code on the "
+                                  "history `%s`: model %s, code %s" % (" ".join(key[1]), a, want))
+        chk.count("stream_and_team_requests_to_the_model", len(dreq))
 
     # ---- pair matrix / distribution ---------------------------------------------------------------
     pairs = {}
@@ -1211,7 +1367,6 @@ def run(chk, replay=None):
                       % (len(missing), missing[0]))
 
     # ---- per program / format checks ---------------------------------------------------------------
-    fails = []       # (size, what, replay, tags)
 
     def fail(pid, f, kind, detail):
         t = programs[pid][0]
